@@ -429,6 +429,8 @@ class _Base:
 
   @classmethod
   def neighbours(cls, case, rng):
+    if case.get('t') not in ('gen', 'genarr'):
+      return
     e = manifest()[case['fn']]
     for _ in range(200):
       yield gen_retrieval_case(rng, e) if case['t'] == 'genarr' else gen_scalar_case(rng, e)
@@ -481,9 +483,66 @@ class _Base:
              dict(why=f'python {got} != generated definition {want}', at=ij, radicands=rr.get('out'))))
 
 
+def check_fnapi_tables(ctx):
+  """the extracted function-API tables vs the real functions: f(batch) must equal the aggregate the table names"""
+  import importlib
+  p = os.path.join(LEAN_DIR, 'MlModel', 'Generated', 'scalar_manifest.json')
+  tables = json.load(open(p)).get('fnapi', {})
+  rng = ctx.rng
+  fr = importlib.import_module('ml_metrics._src.metrics.retrieval')
+  ar = importlib.import_module('ml_metrics._src.aggregates.retrieval')
+  fs = importlib.import_module('ml_metrics._src.metrics.rolling_stats')
+  rs = importlib.import_module('ml_metrics._src.aggregates.rolling_stats')
+  def canon(v):
+    if isinstance(v, dict):
+      return [x for k in sorted(v, key=str) for x in canon(v[k])]
+    return [cnum(x) for x in np.asarray(v, dtype=float).ravel().tolist()]
+  for name, metric, via in tables.get('retrieval', []):
+    for _ in range(3 if ctx.quick else 30):
+      n = rng.choice([1, 2, 4])
+      yt = [[rng.randrange(5) for _ in range(rng.choice([1, 2, 3]))] for _ in range(n)]
+      yp = [rng.sample(range(5), rng.choice([1, 2, 4])) for _ in range(n)]
+      kl = rng.choice([None, [1], [1, 3], [2, 1]])
+      case = dict(t='fnapi', fn=name, metric=metric, y_true=yt, y_pred=yp, k_list=kl, family='generated')
+      ctx.extra_evals += 1
+      ctx.count('fnapi table', name)
+      try:
+        if metric == '*':
+          ms = ['precision', 'recall']
+          got = canon(getattr(fr, name)(ms, y_true=yt, y_pred=yp, k_list=kl))
+          want = canon(ar.TopKRetrieval(metrics=ms, k_list=kl).as_agg_fn()(yt, yp))
+        else:
+          got = canon(getattr(fr, name)(yt, yp, k_list=kl))
+          acc = ar.TopKRetrieval(metrics=metric, k_list=kl)
+          acc.add(yt, yp)
+          want = canon(acc.result())
+      except Exception as e:  # pylint: disable=broad-except
+        ctx.extra_disagreements.append(('fnapi table', case, f'raised {err_kind(e)}: {e}'))
+        continue
+      if len(got) != len(want) or not all(same(a, b) for a, b in zip(got, want)):
+        ctx.extra_disagreements.append(
+            ('fnapi table', case, f'{name}(..) = {got} but the aggregate with metrics={metric} ({via}) gives {want}'))
+  for name, cls, attr in tables.get('rolling', []):
+    for _ in range(3 if ctx.quick else 30):
+      batch = [float(rng.randint(-8, 8)) if rng.random() > .15 else float('nan') for _ in range(rng.choice([1, 3, 6]))]
+      case = dict(t='fnapi', fn=name, cls=cls, attr=attr, batch=[NAN if b != b else b for b in batch], family='generated')
+      ctx.extra_evals += 1
+      ctx.count('fnapi table', name)
+      got = canon(getattr(fs, name)(batch))
+      want = canon(getattr(getattr(rs, cls)().add(batch), attr))
+      if not all(same(a, b) for a, b in zip(got, want)):
+        ctx.extra_disagreements.append(('fnapi table', case, f'{name}(batch) = {got}, {cls}().add(batch).{attr} = {want}'))
+
+
 class C07(_Base):
-  LEAN_MODULES = ['MlModel.Properties.C07.Generated']
+  LEAN_MODULES = ['MlModel.Properties.C07.Generated', 'MlModel.Properties.C07.GeneratedFnApi']
   LABELS = None
+
+  @classmethod
+  def extra(cls, ctx):
+    super().extra(ctx)
+    check_fnapi_tables(ctx)
+
   RULE = ('translator self-check: every definition generated by translate/scalar.py (list = scalar_manifest.json) on '
           'random scalar arguments (small dyadic rationals, zeros, NaN; counts 0..8), retrieval helpers on random 2-row '
           'arrays element by element, sqrt definitions in two passes (exact radicands, float64 roots); oracle = '
